@@ -166,6 +166,41 @@ def file_signature(rec, diffs, mode, typemap=None):
             "nsegs": len(rec["file"])}
 
 
+def widen(rec, factor):
+    """The same abstract file with every channel replaced by `factor` clones (distinct names, same structure): breaks the
+    small-scope bound on the number of objects (more than 255 / 65535 of something) without changing what the
+    specification says about each channel."""
+    import copy
+
+    def clones(p):
+        if p.count("/") != 2:
+            return [p]
+        return [p[:-1] + "#%d'" % i for i in range(factor)]
+    out = copy.deepcopy(rec)
+    for s in out["file"]:
+        for key in ("listed", "layout"):
+            new = []
+            for e in s[key]:
+                for q in clones(e["p"]):
+                    e2 = dict(e)
+                    e2["p"] = q
+                    new.append(e2)
+            s[key] = new
+        s["bytes"] = s.get("bytes", 0) * factor
+    v = out["view"]
+    v["order"] = [q for p in v["order"] for q in clones(p)]
+    for key in ("len", "ty"):
+        d = _as_dict(v[key])
+        v[key] = {q: val for p, val in d.items() for q in clones(p)}
+    d = _as_dict(v["gchans"])
+    v["gchans"] = {g: [q for p in lst for q in clones(p)] for g, lst in d.items()}
+    d = _as_dict(v["props"])
+    v["props"] = {q: val for p, val in d.items() for q in clones(p)}
+    d = _as_dict(out["ty"])
+    out["ty"] = {q: val for p, val in d.items() for q in clones(p)}
+    return out
+
+
 def replay_segments_case(case):
     """worker: case = {"rec": GEN record, "seed": int, "modes": [...], "rot": int, "be_variants": [...]}"""
     from nptdms import TdmsFile
@@ -173,6 +208,8 @@ def replay_segments_case(case):
     seed = case["seed"]
     if not rec["file"]:
         return {"n": 0, "keys": [], "fails": [], "validated": 0}   # zero bytes are not a TDMS file
+    if case.get("widen"):
+        rec = widen(rec, case["widen"])
     tm = rotation(case.get("rot", 0)) if case.get("rot") else None
     fails = []
     n = 0
